@@ -9,6 +9,8 @@ import ModVerif.Proofs.ModfileLex
 import ModVerif.Proofs.ModfileParse
 import ModVerif.Proofs.ModfileRule
 import ModVerif.Proofs.ModfilePos
+import ModVerif.Proofs.ModfileC20Tree
+import ModVerif.Proofs.ModfileC20Stmts
 namespace ModVerif.Props.C20
 open ModVerif ModVerif.Modfile
 
@@ -86,31 +88,113 @@ theorem parseToFile_syntax_error (name data : Bytes) (fix : Option Fixer) (stric
   unfold parseToFile
   simp [h]
 
+/-- The directive layer never reports an internal error either (`directive_layer_no_internal_error`):
+    whatever Parse / ParseLax return as an error list, no entry is "internal lexer error", "internal parse
+    error" or the model's out-of-fuel marker — when the syntax layer succeeds no entry has a syntax-layer
+    kind at all (`Proofs.ModfileC20.addStmts_errs`, `fixRetract_errs`: every error of `File.add`,
+    `parseToFile` and `fixRetract` is created with a directive-layer kind). -/
+theorem directive_layer_no_internal_error (name data : Bytes) (fix : Option Fixer) (strict : Bool)
+    (es : List RuleErr) (h : parseToFile name data fix strict = .error es) :
+    ∀ e ∈ es, ∀ t, e.kind ≠ .syn (.internal t) :=
+  (Proofs.ModfileC20.parseToFile_errors name data fix strict es h).2
+
+/-- The same for ParseWork. -/
+theorem directive_layer_no_internal_error_work (name data : Bytes) (fix : Option Fixer)
+    (es : List RuleErr) (h : parseWork name data fix = .error es) :
+    ∀ e ∈ es, ∀ t, e.kind ≠ .syn (.internal t) :=
+  (Proofs.ModfileC20.parseWork_errors name data fix es h).2
+
+/-- Non-vacuity: a file with directive-layer errors (two of them) in strict mode, for go.mod and go.work. -/
+example :
+    (match parseToFile (B "go.mod") (B "module a\nfrobnicate x\ngo 1\n") none true with
+     | .error es => decide (es.length = 2)
+     | .ok _ => false) = true ∧
+    (match parseWork (B "go.work") (B "go 1.21\nfrobnicate x\nuse (\n\ta b\n)\n") none with
+     | .error es => decide (es.length = 2)
+     | .ok _ => false) = true := by decide +kernel
+
+/-- `File.add`'s if-chain and the regenerated verb list agree: a verb outside `addVerbs`
+    (`Tie.modfile_addVerbs_tie`: the case labels of File.add's switch regenerated from rule.go) gets
+    "unknown directive" in strict mode; likewise `WorkFile.add` and `workVerbs`. -/
+theorem unknown_verb_unknownDirective (st : AddState) (block : Option Comments) (line : Line) (verb : Bytes)
+    (args : List Bytes) (fix : Option Fixer) (h : verbIn verb addVerbs = false) :
+    File.add st block line verb args fix true = (st.err line.start .unknownDirective, args) :=
+  Proofs.ModfileC20.add_unknown_verb st block line verb args fix h
+
+theorem unknown_verb_unknownDirective_work (st : WorkState) (line : Line) (verb : Bytes)
+    (args : List Bytes) (fix : Option Fixer) (h : verbIn verb workVerbs = false) :
+    WorkFile.add st line verb args fix = (st.err line.start .unknownDirective, args) :=
+  Proofs.ModfileC20.workAdd_unknown_verb st line verb args fix h
+
+/-- Non-vacuity: `frobnicate` is in neither list. -/
+example : verbIn (B "frobnicate") addVerbs = false ∧ verbIn (B "frobnicate") workVerbs = false := by decide +kernel
+
 /-! ### positions -/
 
-/-- `pos_consistent`, the part proved so far: byte offsets of tokens.  In every lexer state the parser
-    can be in (`Reach`: prime with `readToken`, then `readToken` again and again; the parser otherwise
-    only bumps its line counter), the pending token's text — for comments: without the trailing
-    newline — is found in the input at `token.pos.byte`, the token ends at `token.endPos.byte`, which
-    is the lexer's current offset (the `Pos` of any error reported next), that offset is inside the
-    input and the rest of the input starts there.  Missing (lean/PENDING.md): the `Line`/`LineRune`
-    components, and the lifting to the positions stored in the tree, which the parser copies from
-    these tokens. -/
-theorem pos_consistent_tokens_partial (data : Bytes) (i : Input) (h : Proofs.ModfilePos.Reach data i) :
-    i.token.text <+: data.drop i.token.pos.byte ∧
-    i.token.endPos.byte = i.pos.byte ∧
-    i.token.pos.byte + i.tokRev.length = i.token.endPos.byte ∧
-    data.drop i.pos.byte = i.remaining ∧ i.pos.byte ≤ data.length :=
-  Proofs.ModfilePos.tokOK_spec (Proofs.ModfilePos.reach_tokOK h)
+open Proofs.ModfileC20 in
+/-- `pos_consistent`.  `PosOK data p` (Proofs/ModfileC20Lex.lean) says that the three components of a
+    position agree with the input: `p.byte ≤ data.length`, `p.line = 1 + (number of newline bytes in
+    data.take p.byte)`, `p.lineRune = 1 + utf8.RuneCountInString(bytes of data.take p.byte after its last
+    newline)`.  `PosAt data p text` adds that the input continues with `text` at `p.byte`.
+
+    For every input: if `parse` fails, the error position is consistent (`PosOK`); if it succeeds, the tree
+    satisfies `FileOK data` (Proofs/ModfileC20Tree.lean), i.e. for EVERY position stored in the tree:
+    * `Line.start` is `PosAt` the line's first token; `LineBlock.start` is `PosAt` the block's first token;
+    * `LParen.pos` is `PosAt` "(" and `RParen.pos` is `PosAt` ")";
+    * `CommentBlock.start` is the start of its first comment and `PosAt` that comment's text;
+    * every `Comment.start` in every `Comments` of the tree (file, comment blocks, lines, blocks, parens;
+      before / suffix / after) is `PosAt` the comment's text (which excludes the line end, LF or CRLF) —
+      except the blank-line placeholder `Comment{}` of blocks (empty token, zero position), `CommentOK`;
+    * `Line.end` is consistent (`PosOK`) and the input before it ends with the line's last token
+      (`EndsAt`).  Documented slack: `EndsAt` allows the LF / CRLF that `endToken` strips from a comment
+      token between the token text and the end position; that case needs a whole-line comment token
+      inside a line, which the lexer never delivers (a comment after other tokens is an end-of-line
+      comment) — that last fact is not proved, see lean/PENDING.md. -/
+theorem pos_consistent (name data : Bytes) :
+    match parse name data with
+    | .ok t => FileOK data t
+    | .error e => PosOK data e.pos :=
+  parse_pos_consistent name data
+
+open Proofs.ModfileC20 in
+/-- `pos_consistent` for the error lists: every error of Parse, ParseLax and ParseWork (syntax error or
+    directive-layer error, including those of `fixRetract`) is at a consistent position — for a
+    directive-layer error the start of a line or block of the tree (`addStmts_errs`). -/
+theorem pos_consistent_errors (name data : Bytes) (fix : Option Fixer) :
+    (∀ strict es, parseToFile name data fix strict = .error es → ∀ e ∈ es, PosOK data e.pos) ∧
+    (∀ es, parseWork name data fix = .error es → ∀ e ∈ es, PosOK data e.pos) :=
+  ⟨fun strict es h => (parseToFile_errors name data fix strict es h).1,
+   fun es h => (parseWork_errors name data fix es h).1⟩
+
+open Proofs.ModfileC20 in
+/-- `pos_consistent`, token level: in every lexer state the parser can be in (`Reach`), the pending token
+    starts at a consistent position where the input continues with its text, ends at a consistent position
+    before which the input ends with its text (exactly, for every non-comment token), a punctuation token's
+    text is its character, and the lexer's current position (the `Pos` of any error reported next) is
+    consistent. -/
+theorem pos_consistent_tokens (data : Bytes) (i : Input) (h : Proofs.ModfilePos.Reach data i) :
+    PosAt data i.token.pos i.token.text ∧ EndsAt data i.token.endPos i.token.text ∧
+    (i.token.kind.isComment = false → i.token.text <:+ data.take i.token.endPos.byte) ∧
+    (∀ c, i.token.kind = .punct c → i.token.text = [c]) ∧ PosOK data i.pos :=
+  ⟨(reach_facts h).start, (reach_facts h).«end», (reach_facts h).exactEnd, (reach_facts h).punct, reach_cur h⟩
 
 /-- Non-vacuity: the states reached while lexing `module  x // c` are `Reach`able, and the second
-    token `x` is reported at byte 8. -/
+    token `x` is reported at line 1, rune 9, byte 8. -/
 example :
     let data := B "module  x // c\n"
     (match readToken (newInput data) with
      | .ok i1 => (match readToken i1 with
                   | .ok i2 => decide (i2.token.text = B "x" ∧ i2.token.pos = ⟨1, 9, 8⟩ ∧ i2.token.endPos = ⟨1, 10, 9⟩)
                   | .error _ => false)
+     | .error _ => false) = true := by decide +kernel
+
+/-- Non-vacuity of `pos_consistent`: a file with a multi-byte rune, a block, comments and a blank line
+    parses; the positions of the second line of the block are line 4, rune 2 (after the tab), byte 26. -/
+example :
+    (match parse (B "go.mod") (B "// é\nmodule m\nrequire (\n\ta v1 // c\n\n\tb v2\n)\n") with
+     | .ok t => (match t.stmts with
+                 | [_, .lineBlock b] => decide ((b.lines.map (·.start)) = [⟨4, 2, 26⟩, ⟨6, 2, 38⟩])
+                 | _ => false)
      | .error _ => false) = true := by decide +kernel
 
 /-! ### lax ⊇ strict, piecewise -/
